@@ -20,7 +20,8 @@ _COL = [c.name for c in Color]
 _ACT = [a.name for a in Action]
 PROBES = [None, True, 0, 1, -1, 2.5, 'x', 'manhattan', 'euclidean', _COL[0], _ACT[0], [], [1], [1, 2], [0, 1], [2, -1], [1, 2, 3], [True, 1], [1.0, 2], (1, 2),
           [_COL[0]], [_COL[0], _COL[-1]], [_COL[0], _COL[0]], ['PURPLE'], [_ACT[0]], [_ACT[0], _ACT[1]], [_ACT[1], _ACT[1]], ['Wall'], ['Wall', 'Wall'],
-          ['Wall', 'Lava'], [1, 'Wall'], [[1, 2]], {}, {'name': 'x'}, ['x', 7], [None]]
+          ['Wall', 'Lava'], [1, 'Wall'], [[1, 2]], {}, {'name': 'x'}, ['x', 7], [None],
+          [_COL[0], _COL[-1], _COL[0]], [_ACT[0], _ACT[1], _ACT[0]], ['Wall', 'Floor', 'Wall'], [2, 1], [1, 1], [10 ** 6, 1], 'euclidean ', ['NONE '], [_ACT[0].lower()]]
 
 
 def _uniq_strs(v, allowed=None):
